@@ -101,12 +101,47 @@ class Normalise(ast.NodeTransformer):
                 out.append(st)
         return out
 
+    def expand_stmts(self, stmts):
+        """statement-level spellings: `a, b = X, Y` (independent) is `a = X; b = Y`; `x = A if c else B` is the `if`;
+        `x = next((v for v in L if C), None)` is `x = None; for v in L: if C: x = v; break`"""
+        out = []
+        for st in stmts:
+            if isinstance(st, ast.Assign) and len(st.targets) == 1:
+                t, v = st.targets[0], st.value
+                if isinstance(t, ast.Tuple) and isinstance(v, ast.Tuple) and len(t.elts) == len(v.elts) \
+                        and all(isinstance(x, ast.Name) for x in t.elts):
+                    names = {x.id for x in t.elts}
+                    if not any(isinstance(n_, ast.Name) and n_.id in names for e_ in v.elts for n_ in ast.walk(e_)):
+                        for a_, b_ in zip(t.elts, v.elts):
+                            out.append(ast.copy_location(ast.Assign(targets=[ast.Name(id=a_.id, ctx=ast.Store())], value=b_), st))
+                        continue
+                if isinstance(t, ast.Name) and isinstance(v, ast.IfExp):
+                    mk = lambda val: ast.copy_location(ast.Assign(targets=[ast.Name(id=t.id, ctx=ast.Store())], value=val), st)
+                    out.append(self.visit_If(ast.copy_location(ast.If(test=v.test, body=[mk(v.body)], orelse=[mk(v.orelse)]), st)))
+                    continue
+                if isinstance(t, ast.Name) and isinstance(v, ast.Call) and isinstance(v.func, ast.Name) and v.func.id == 'next' \
+                        and len(v.args) == 2 and isinstance(v.args[1], ast.Constant) and v.args[1].value is None \
+                        and isinstance(v.args[0], ast.GeneratorExp) and len(v.args[0].generators) == 1:
+                    g = v.args[0].generators[0]
+                    if isinstance(g.target, ast.Name) and isinstance(v.args[0].elt, ast.Name) and v.args[0].elt.id == g.target.id \
+                            and g.ifs and not g.is_async:
+                        cond = g.ifs[0] if len(g.ifs) == 1 else ast.BoolOp(op=ast.And(), values=list(g.ifs))
+                        out.append(ast.copy_location(ast.Assign(targets=[ast.Name(id=t.id, ctx=ast.Store())],
+                                                                value=ast.Constant(value=None)), st))
+                        hit = ast.Assign(targets=[ast.Name(id=t.id, ctx=ast.Store())], value=ast.Name(id=g.target.id, ctx=ast.Load()))
+                        out.append(ast.copy_location(ast.For(target=ast.Name(id=g.target.id, ctx=ast.Store()), iter=g.iter,
+                                                             body=[ast.If(test=cond, body=[hit, ast.Break()], orelse=[])],
+                                                             orelse=[]), st))
+                        continue
+            out.append(st)
+        return [ast.fix_missing_locations(x) for x in out]
+
     def generic_visit(self, node):
         super().generic_visit(node)
         for f in ('body', 'orelse', 'finalbody'):
             v = getattr(node, f, None)
             if isinstance(v, list) and v and isinstance(v[0], ast.stmt):
-                setattr(node, f, self.hoist_else(v))
+                setattr(node, f, self.hoist_else(self.expand_stmts(v)))
         return node
 
     def visit_Expr(self, node):
